@@ -318,6 +318,18 @@ func VerifyECDSA(pub, sigNoHT []byte, digest [32]byte) bool {
 	})
 }
 
+// verifyECDSARS verifies explicit (r, s) values (used by the diagnostic quirk only).
+func verifyECDSARS(pub []byte, r, s *big.Int, digest [32]byte) bool {
+	return cached(cacheKey('q', pub, r.Bytes(), []byte{0}, s.Bytes(), digest[:]), func() bool {
+		q, why := refec.ParsePubKey(pub)
+		if why != "" {
+			return false
+		}
+		good, _ := refec.ECDSAVerifyPoint(q, r, s, digest[:])
+		return good
+	})
+}
+
 // VerifySchnorr is XOnlyPubKey::VerifySchnorr (BIP340) for a 32-byte key and 64-byte signature.
 func VerifySchnorr(pk32, sig64 []byte, digest [32]byte) bool {
 	if len(pk32) != 32 || len(sig64) != 64 {
